@@ -19,6 +19,7 @@
 (*     harvTest    load_full_ds       : os.access(..., W_OK)               *)
 (*     harvLoad    load_full_ds       : load_ds(...)                       *)
 (*     harvRemove  save_full_ds       : os.path.exists / os.remove         *)
+(*     harvSave    save_full_ds       : file (re)written                   *)
 (*     delete      delete_ds          : os.remove                          *)
 (* The property says there is ONE rule, FileOf, used at every site, with   *)
 (* the engine the caller gave.  RawSites / DefEngSites name the sites of   *)
@@ -37,7 +38,10 @@ CONSTANTS NameExt,      \* "" | ".h5" | ".dmp" : the extension the logical name 
                         \* ".5" : the name is 'data_T0.5' - a dot, but no engine extension - and a sibling
                         \* 'data_T0.25' lives in the same directory (ops SaveSib / LoadSib)
           NameRule,     \* "append" (the property) | "splitext" (an unknown suffix is REPLACED by the extension)
-          Engine,       \* "h5netcdf" | "joblib"
+          Engine,       \* "h5netcdf" | "joblib" : the engine given with every call
+          CtorEngine,   \* the engine the Harvester object was constructed with (may differ from Engine: the calls
+                        \* add_ds / load_full_ds / save_full_ds then carry engine=Engine explicitly)
+          CtorEngSites, \* sites using the constructor's engine instead of the one given with the call
           MaxLen,       \* length of the histories
           Policies,     \* subset of {"none", "true", "false"} : overwrite=None/True/False
           OpsOn,        \* subset of {"Save","Load","LoadNew","SaveMerge","HarvSame","HarvFresh","Delete"}
@@ -61,7 +65,7 @@ VARIABLES dir,      \* set of file names present
 sibv == <<sibLive, sibWant>>
 vars == <<dir, content, fmt, mem, sess, live, want, last, hist, rt, sibLive, sibWant>>
 
-Sites == {"save", "load", "loadNewTest", "mergeTest", "mergeLoad", "harvTest", "harvLoad", "harvRemove", "delete"}
+Sites == {"save", "load", "loadNewTest", "mergeTest", "mergeLoad", "harvTest", "harvLoad", "harvRemove", "harvSave", "delete"}
 Ext(e) == IF e = "h5netcdf" THEN ".h5" ELSE ".dmp"
 Root == IF NameExt = ".5" THEN "data_T0" ELSE "data"
 Name == Root \o NameExt
@@ -77,7 +81,7 @@ SibFileOf(e) == RuleFile(Root, SibExt, e)
 
 (* what the implementation computes *)
 CodeFile(root, x, e) == IF NameRule = "splitext" /\ x # "" /\ ~KnownExt(x) THEN root \o Ext(e) ELSE RuleFile(root, x, e)
-EngAt(site) == IF site \in DefEngSites THEN "h5netcdf" ELSE Engine
+EngAt(site) == IF site \in DefEngSites THEN "h5netcdf" ELSE IF site \in CtorEngSites THEN CtorEngine ELSE Engine
 FileAt(site) == IF site \in RawSites THEN Name ELSE CodeFile(Root, NameExt, EngAt(site))
 SibFileAt(site) == IF site \in RawSites THEN SibName ELSE CodeFile(Root, SibExt, EngAt(site))
 
@@ -175,7 +179,7 @@ SaveMerge(pol) ==
     /\ UNCHANGED <<mem, sess, rt>>
     /\ UNCHANGED sibv
 
-(* Harvester(runner, name, engine).add_ds(new, overwrite=pol)  [sync=True]:
+(* Harvester(runner, name, CtorEngine).add_ds(new, overwrite=pol, engine=Engine)  [sync=True]:
    load_full_ds (test, load) -> merge with memory -> save_full_ds (remove, save_ds).
    fresh: a new Harvester object (a new session); otherwise the object of the earlier step. *)
 HarvSync(pol, fresh) ==
@@ -194,7 +198,7 @@ HarvSync(pol, fresh) ==
                        old == IF m1 = <<>> THEN {} ELSE m1[1]
                        new == old \cup {P}
                        rm == FileAt("harvRemove")
-                       f == FileAt("save")
+                       f == FileAt("harvSave")
                        d1 == (dir \ {rm}) \cup {f}
                        c == [[content EXCEPT ![rm] = {}] EXCEPT ![f] = new]
                    IN  /\ dir' = d1
@@ -207,7 +211,8 @@ HarvSync(pol, fresh) ==
     /\ UNCHANGED rt
     /\ UNCHANGED sibv
 
-(* Harvester(runner, name, engine).delete_ds(); the object is dropped afterwards *)
+(* Harvester(runner, name, Engine).delete_ds() - delete_ds takes no engine of its own, so the object
+   deleting is one constructed with the engine of the calls; the object is dropped afterwards *)
 Delete ==
     /\ "Delete" \in OpsOn
     /\ Len(hist) < MaxLen
@@ -295,7 +300,7 @@ MemIsDisk == (sess /\ last.op \in {"HarvFresh", "HarvSame"} /\ last.st = "ok") =
 
 EmitCase ==
     Len(hist) = MaxLen =>
-        PrintT(<<"CASE", ToJson([ext |-> NameExt, engine |-> Engine, file |-> FileOf(Engine), name |-> Name, sib |-> SibName,
+        PrintT(<<"CASE", ToJson([ext |-> NameExt, engine |-> Engine, ctor |-> CtorEngine, file |-> FileOf(Engine), name |-> Name, sib |-> SibName,
                                  hist |-> hist])>>)
 
 -----------------------------------------------------------------------------
